@@ -24,6 +24,7 @@ pub mod c12check;
 pub mod c15check;
 pub mod c10check;
 pub mod c04check;
+pub mod c03check;
 
 use common::{Failure, ReplayFile, Tier, case_from};
 
@@ -31,6 +32,7 @@ use common::{Failure, ReplayFile, Tier, case_from};
 pub fn dispatch(prop: &str, tier: Tier, seed: u64) -> i32 {
     match prop {
         "C01" => hybchecks::check_c01(tier, seed),
+        "C03" => c03check::check_c03(tier, seed),
         "C04" => c04check::check_c04(tier, seed),
         "C05" => memchecks::check_c05(tier, seed),
         "C06" => fetchcheck::check_c06(tier, seed),
@@ -65,6 +67,7 @@ pub fn replay(rf: &ReplayFile) -> anyhow::Result<Option<Failure>> {
         ("C15", _) => c15check::exec_c15(&case_from(rf)?).failure,
         ("C10", _) => c10check::exec_c10(&case_from(rf)?).failure,
         ("C04", _) => c04check::exec_c04(&case_from(rf)?).failure,
+        ("C03", _) => c03check::exec_c03(&case_from(rf)?).failure,
         ("C14", _) => evcheck::exec_c14(&case_from(rf)?).failure,
         ("C05" | "C13" | "C18", _) => memchecks::replay_mem(&rf.property, case_from(rf)?),
         (p, s) => anyhow::bail!("no replay handler for {p}/{s}"),
